@@ -53,8 +53,11 @@ def st_schedule(draw):
         k = draw(st.integers(0, 19))
         c = draw(st.integers(0, 3))
         if k <= 4:
+            # index -1 stands for an unusable filter ({"kinds": "x"}); a REQ made only of those (or of none)
+            # opens nothing but still ends the subscription whose id it reuses
             ops.append(["req", c, draw(st.sampled_from(SUBS)),
-                        draw(st.lists(st.integers(0, len(FILTERS) - 1), min_size=1, max_size=2)),
+                        draw(E.weighted((8, st.lists(st.integers(0, len(FILTERS) - 1), min_size=1, max_size=2)),
+                                        (1, st.just([-1])), (1, st.just([])), (1, st.just([-1, 0])))),
                         draw(st.sampled_from([0, 1, 2]))])
         elif k <= 9:
             ops.append(["event", c, draw(st.sampled_from([1, 1, 2, 7, 20000])), draw(st.integers(0, 1)),
@@ -140,10 +143,13 @@ class Fanout(Sub):
                     for I in instances:
                         if I["conn"] == ci and I["sub"] == op[2] and I["t_end_fed"] is None:
                             I["t_end_fed"] = t
-                    fl = [FILTERS[i] for i in op[3]]
-                    instances.append({"conn": ci, "sub": op[2], "filters": fl, "t_fed": t, "t_settled": None,
-                                      "t_end_fed": None, "t_end_settled": None})
-                    c.feed(["REQ", op[2]] + fl, op[4])
+                    fl = [FILTERS[i] for i in op[3] if i >= 0]
+                    if fl:
+                        instances.append({"conn": ci, "sub": op[2], "filters": fl, "t_fed": t, "t_settled": None,
+                                          "t_end_fed": None, "t_end_settled": None})
+                    else:
+                        labels.append("req-without-usable-filter")
+                    c.feed(["REQ", op[2]] + [FILTERS[i] if i >= 0 else {"kinds": "x"} for i in op[3]], op[4])
                     pending_feed = True
                 elif op[0] == "event":
                     counter += 1
@@ -295,4 +301,71 @@ def _brief(e):
     return {"id": e["id"][:12], "kind": e["kind"], "pubkey": e["pubkey"][:8], "created_at": e["created_at"], "tags": e["tags"]}
 
 
-SUBCHECKS = [Fanout()]
+class WriterWindow(Sub):
+    """LMDB: a duplicate arriving while the writer thread is INSIDE the write transaction of the first copy"""
+
+    name = "writer-window"
+    examples = {"quick": 200, "thorough": 4000}
+    shards = {"quick": 4, "thorough": 8}
+    rule = ("LMDB with the writer's run() on a real thread that the harness gates at the k-th index mutation of the "
+            "first copy's transaction; the same event is resubmitted on another connection inside that window; "
+            "non-trivial = the gate was reached strictly inside the transaction")
+
+    def strategy(self, tier):
+        return st.tuples(st.integers(0, 8), st.sampled_from([1, 10000, 30000]), st.integers(0, 3)).map(list)
+
+    def run_case(self, case):
+        return H.run(self._run, case)
+
+    async def _run(self, case):
+        import threading
+        import lmdb
+
+        k, kind, older = case
+        viol = []
+        async with H.Rig("kv") as rig:
+            w = rig.conn("10.0.0.9")
+            await w.send(["REQ", "w", {"since": 1}])
+            for i in range(older):   # older versions make the transaction longer (supersession deletes)
+                await rig.add(E.make(0, kind, E.T0 + i, [["t", "a"], ["d", "x"]], "old%d" % i))
+            ev = E.make(0, kind, E.T0 + 50, [["t", "a"], ["d", "x"]], "the event")
+            a = rig.conn("10.0.0.1")
+            b = rig.conn("10.0.0.2")
+            n0 = len(w.out)
+            a.feed(["EVENT", ev])
+            await H.settle(rig, pump=False)
+            reached, go = threading.Event(), threading.Event()
+            n = [0]
+
+            def hook(op, key):
+                if n[0] == k:
+                    reached.set()
+                    go.wait(20)
+                n[0] += 1
+
+            lmdb.FAULT_HOOK = hook
+            th = threading.Thread(target=rig.pump)
+            th.start()
+            inside = reached.wait(5)
+            try:
+                b.feed(["EVENT", ev])
+                await H.settle(rig, pump=False)
+            finally:
+                go.set()
+                th.join(30)
+                lmdb.FAULT_HOOK = None
+            await rig.settle()
+            pushes = [f for f in w.frames(n0) if f[0] == "EVENT" and f[2]["id"] == ev["id"]]
+            if len(pushes) != 1:
+                viol.append(V("kv-duplicate-in-writer-window-rebroadcast",
+                              "an event reaches each open matching subscription exactly once",
+                              pushes=len(pushes), gate=k, inside=inside))
+            stored = await rig.dump()
+            if ev["id"] not in stored:
+                viol.append(V("kv-event-lost-in-writer-window", "an acknowledged event is stored", gate=k))
+            for c in (a, b, w):
+                await c.disconnect()
+        return Result(viol, bool(inside), ["gate-reached" if inside else "gate-not-reached"])
+
+
+SUBCHECKS = [Fanout(), WriterWindow()]
